@@ -53,6 +53,11 @@ def rewardsBlockOK (cur : Option Period) (h minted : Nat) : Bool :=
   | none => minted == 0
   | some p => if p.alloc = 0 then minted == 0 else decide (minted ≤ blockBound p h)
 
+/-- per-block clause along a history: `ms` are the amounts created at heights h, h+1, … -/
+def blocksOK (periods : List Period) : Nat → List Nat → Bool
+  | _, [] => true
+  | h, m :: ms => rewardsBlockOK (currentPeriod periods h) h m && blocksOK periods (h + 1) ms
+
 /-- per-period clause: a period never creates more than its allocation -/
 def rewardsPeriodOK (p : Period) (total : Nat) : Bool := decide (total ≤ p.alloc)
 
@@ -79,7 +84,7 @@ def rewardsCumOK (accu0 entitledSoFar totalMinted accu : Nat) : Bool :=
 
 /-- operating envelope of section 5 for reward periods (no uint64 wrap, no 2^256 overflow) -/
 def periodOK (p : Period) : Bool :=
-  decide (p.start ≤ p.stop) && decide (p.stop < 2 ^ 62) && decide (p.mod < 2 ^ 62) && decide (p.alloc < 2 ^ 200)
+  decide (p.start ≤ p.stop) && decide (p.stop < 2 ^ 62) && decide (p.mod < 2 ^ 62) && decide (p.alloc < 2 ^ 128)
 
 def inEnvelope (periods : List Period) : Bool := periods.all periodOK
 
